@@ -428,6 +428,43 @@ func seedGhostUnit(dir, id string) error {
 	return os.WriteFile(filepath.Join(u, "status"), []byte(st), 0o600)
 }
 
+// stratify15 keeps, in every (command, connection kind, work-type class) cell, k token classes that rotate with the
+// cell index and the seed (so that every cell is exercised, every token class occurs in many cells, and over seeds the
+// rotation covers the whole table), and in the cells the property protects (a verifying type or a signed remote unit
+// reached over TCP or the mesh) also the token classes valid and absent.
+func stratify15(vecs []vec15, k int, seed int64) []vec15 {
+	toks := []string{"absent", "empty", "garbage", "valid", "expired", "other_aud", "other_key", "alg_none", "hs256_pub", "truncated"}
+	cells := map[string]int{}
+	var names []string
+	for _, v := range vecs {
+		c := v.Cmd + "|" + v.Conn + "|" + v.Wt
+		if _, ok := cells[c]; !ok {
+			cells[c] = 0
+			names = append(names, c)
+		}
+	}
+	sort.Strings(names)
+	for i, c := range names {
+		cells[c] = i
+	}
+	var out []vec15
+	for _, v := range vecs {
+		protected := v.Conn != "unix" && (v.Wt == "verifying" || v.Wt == "remote_sign")
+		keep := protected && (v.Tok == "valid" || v.Tok == "absent")
+		ci := cells[v.Cmd+"|"+v.Conn+"|"+v.Wt]
+		for j := 0; j < k && !keep; j++ {
+			if toks[(ci*3+int(seed)+j*7)%len(toks)] == v.Tok {
+				keep = true
+			}
+		}
+		if keep {
+			out = append(out, v)
+		}
+	}
+
+	return out
+}
+
 func init() { commands["c15"] = cmdC15 }
 
 func cmdC15(args []string) {
@@ -439,6 +476,7 @@ func cmdC15(args []string) {
 	seed := fs.Int64("seed", 1, "seed")
 	inst := fs.Int("instances", 1, "concrete instances per vector")
 	replayFile := fs.String("replay", "", "replay file of a previous run")
+	subset := fs.Int("subset", 0, "0 = all vectors; k = a seeded stratified subset: k rotating token classes in every (command, connection, work type) cell, plus valid and absent in the protected cells")
 	_ = fs.Parse(args)
 	res := &Result{Counters: map[string]int{}}
 	defer func() { res.write(*out) }()
@@ -453,6 +491,9 @@ func cmdC15(args []string) {
 
 		return a.Cmd+a.Wt+a.Conn+a.Tok < b.Cmd+b.Wt+b.Conn+b.Tok
 	})
+	if *subset > 0 && *replayFile == "" {
+		vecs = stratify15(vecs, *subset, *seed)
+	}
 	if *replayFile != "" {
 		b, err := os.ReadFile(*replayFile)
 		var rp struct {
